@@ -12,7 +12,8 @@ REPO_TRUSTED = [
     "correspondence: vlib/repo.py (scenario runner on the hook-instrumented xvc binary built from /repo, observer of workspace / cache / stores, canonicaliser), vlib/repocheck.py; tools/blake3_ref.py and Python hashlib as independent hash implementations",
     "modelled, not verified: file/src/{track,carry_in,recheck}/mod.rs, file/src/common/{mod,compare}.rs (move_to_cache, recheck_from_cache, diff_*), core/src/types/{xvcpath,diff}.rs, xvcdigest (text/binary normalisation) as Repo/Model.v; hash functions are ideal (digest = algorithm + normalised content); the five component stores are seen through their loaded maps (justified by C08); target resolution is given (explicit file targets); .gitignore handling is not in this model",
     "the visiting order of the targets of one command (HashMap iteration, rayon) is a parameter of the model: the order logged by the implementation is used, permutations are tried on a mismatch",
-    "environment assumptions: edits_visible (every user write gets a distinct explicit mtime); POSIX rename/link/symlink semantics; interleavings INSIDE one carry_in closure in parallel mode are not modelled (explored only by the parallel runs)",
+    "environment assumptions: on the implementation side every user write of the runner gets a distinct explicit mtime (in the model edits_visible is a theorem: Repo/Stamps.v); POSIX rename/link/symlink semantics; interleavings INSIDE one carry_in closure in parallel mode are not modelled (explored only by the parallel runs; open finding P44 parallel-duplicate-race)",
+    "theorems exclude one boolean class, decided by running the model on the history: relink (a commit renames a workspace symlink / hard link into the cache; open finding P41), and where stated the CR/LF alias classes (P2)",
 ]
 
 
@@ -567,14 +568,25 @@ def gen_c17(rng, idx):
 # =====================================================================================================
 # the common driver of C01 / C02 / C17
 # =====================================================================================================
-def execute_listing(xvc, sc, list_kinds):
-    rr = R.RealRun(xvc, sc.cfg, parallel=sc.parallel)
-    rr.list_kinds = list_kinds
-    try:
-        sc.robs, sc.eff = rr.run(sc.items)
-        sc.log = rr.log
-    finally:
-        rr.close()
+def execute_listing(xvc, sc, list_kinds, attempts=2):
+    """runs the history on the real binary; a run that could not be completed or observed (time-out on
+    an overloaded machine, scratch directory trouble) is repeated once and then set aside: sc.robs = None"""
+    for k in range(attempts):
+        rr = None
+        try:
+            rr = R.RealRun(xvc, sc.cfg, parallel=sc.parallel)
+            rr.list_kinds = list_kinds
+            sc.robs, sc.eff = rr.run(sc.items)
+            sc.log = rr.log
+            return sc
+        except Exception as e:      # noqa: BLE001
+            sc.robs, sc.eff, sc.log = None, None, ["run set aside: %r" % (e,)]
+        finally:
+            if rr is not None:
+                try:
+                    rr.close()
+                except Exception:   # noqa: BLE001
+                    pass
     return sc
 
 
@@ -602,6 +614,12 @@ def drive(chk, replay, prop, gen, oracle, nontrivial, n_quick, n_thorough, rule,
             scs.append(Scenario(len(scs), cfg, items, parallel=(i % 2 == 1)))
     with ThreadPoolExecutor(threads) as ex:
         list(ex.map(lambda s: execute_listing(xvc, s, list_kinds), scs))
+    aside = [sc for sc in scs if sc.robs is None]
+    scs = [sc for sc in scs if sc.robs is not None]
+    chk.cov["histories_set_aside"] = len(aside)
+    if len(aside) > max(3, len(scs) // 4):
+        chk.fail("correspondence", "%d of %d histories could not be executed: %s" % (len(aside), len(aside) + len(scs), aside[0].log),
+                 {"theorem_or_correspondence": "scenario runner"}, name="runner", has_input=False)
     dist = {"histories": len(scs), "items": 0, "track": 0, "carry": 0, "recheck": 0, "user": 0, "panics": 0, "errors": 0,
             "parallel": 0, "algo": {}, "default_method": {}, "tob": {}, "methods_requested": {}, "forced": 0}
     reported = 0
@@ -657,10 +675,10 @@ def shrink_scenario_with(xvc, sc, fails, list_kinds):
         s2 = Scenario(sc.idx, sc.cfg, items, sc.parallel)
         try:
             execute_listing(xvc, s2, list_kinds)
-            return bool(fails(s2))
+            return s2.robs is not None and bool(fails(s2))
         except Exception:
             return False
     items = C.shrink_list(sc.items, still, max_rounds=40)
     s2 = Scenario(sc.idx, sc.cfg, items, sc.parallel)
     execute_listing(xvc, s2, list_kinds)
-    return s2
+    return s2 if s2.robs is not None else sc
